@@ -1,4 +1,9 @@
 import PetgraphModel.Common
+import PetgraphModel.Driver.C05
+import PetgraphModel.Driver.C20
+import PetgraphModel.Driver.C15
+import PetgraphModel.Driver.C03
+import PetgraphModel.Driver.C16
 import PetgraphModel.Driver.C07
 import PetgraphModel.Driver.C08
 import PetgraphModel.Driver.C19
@@ -11,4 +16,9 @@ def main (args : List String) : IO UInt32 := do
   | ["C07"] => driverLoop inp out C07.step {}; return 0
   | ["C08"] => driverLoop inp out C08.step {}; return 0
   | ["C19"] => driverLoop inp out C19.step {}; return 0
+  | ["C16"] => driverLoop inp out C16.step {}; return 0
+  | ["C03"] => driverLoop inp out C03.step {}; return 0
+  | ["C15"] => driverLoop inp out C15.step {}; return 0
+  | ["C20"] => driverLoop inp out C20.step {}; return 0
+  | ["C05"] => driverLoop inp out C05.step {}; return 0
   | _ => IO.eprintln "usage: pgmodel <property id>  (protocol lines on stdin)"; return 2
